@@ -437,6 +437,10 @@ K("C07/has-legal-moves/small-boards", ["C07"], "movegen::verif_kani_b::c07_has_l
 N("C19/capacity-witnesses", ["C19"], "movegen::verif_kani_b::n19_capacity_and_known_high_mobility_positions", ["movegen::MoveList", "movegen::semilegal::gen_all_into"],
   "NOT a proof of A-CAP: MoveList capacity is the documented 256 and is not exceeded by the highest-mobility positions known (218 legal in a reachable position; 242 semilegal with 15 promoted queens), evaluated on the real generator through the safe Vec sink")
 
+K("C12/uci-list/push", ["C12", "C13", "C02"], "chain::verif_kani_b::c12_push_uci_list_total_len6", ["BaseMoveChain::push_uci_list", "<make::Uci as Make>::make_raw", "Move::from_uci_semilegal"],
+  "for all UTF-8 strings of <= 6 bytes pushed onto the initial position: push_uci_list returns Ok or an error, never panics; on Ok exactly the whitespace-separated tokens were applied; on Err the error position is the failing token and the chain holds exactly the tokens before it (position unchanged if none)",
+  bounded="strings of <= 6 bytes, initial position", timeout=5400, mem_gb=24, mem_est=8)
+
 
 def by_id():
     return {o["id"]: o for o in OBS}
